@@ -819,6 +819,14 @@ func (c *wsConn) handleWsConn(ctx context.Context) {
 		case rerr := <-c.readError:
 			action = "read-error"
 
+			// the connection is unusable from here on: mark it as such, like the
+			// nextMessage error path does, so that requests accepted before the
+			// reconnect completes fail immediately instead of being registered
+			// and written to the dead connection
+			c.errLk.Lock()
+			c.incomingErr = rerr
+			c.errLk.Unlock()
+
 			log.Debugw("websocket error", "error", rerr, "lastAction", action, "time", time.Since(start))
 			if !c.tryReconnect(ctx) {
 				return // failed to reconnect
